@@ -64,7 +64,7 @@ def _norm_label(c):
 def job_fn(job):
     import pyrates.backend.base.base_backend as bb
     spec, outputs, vec = job['spec'], job['outputs'], job['vectorize']
-    ct = build_python(spec)
+    ct = build_python(spec, share_circuits=job.get('same_sub', False))
     if job.get('update'):
         # the same path notation in update_var: the value must arrive on exactly the addressed node(s)
         import copy
@@ -248,6 +248,13 @@ def run(tier='quick', seed=0, only=None, verbose=False):
             for vec in (True, False):
                 jobs.append(dict(key=f"upd:shared={shared}|update_var:{upd[0]}|vec={vec}", spec=spec, vectorize=vec,
                                  outputs={'w': 'all/o1/x', 'v': 'all/li/x'}, update=init + [upd]))
+    # three levels, the mid-level and the leaf circuit each ONE object under two keys
+    spec, fp = base_spec(True, 2, same_sub=True)
+    init = [('all/all/all/o1/x', [fp() for _ in range(8)]), ('all/all/all/li/x', [fp() for _ in range(4)])]
+    for upd in [('m0/c0/a0/o1/k', fp()), ('m1/c1/b0/li/tau', fp()), ('m1/all/a1/o1/g', fp())]:
+        for vec in (True, False):
+            jobs.append(dict(key=f"upd3:three-levels-shared|update_var:{upd[0]}|vec={vec}", spec=spec, vectorize=vec,
+                             same_sub=True, outputs={'w': 'all/all/all/o1/x', 'v': 'm1/c0/all/li/x'}, update=init + [upd]))
     if only:
         jobs = [j for j in jobs if only in j['key']]
     for job, outc in runner.run_jobs(job_fn, jobs, timeout=300):
